@@ -13,7 +13,7 @@ DIRECT = {
     'C14': {'inv-false-on-observed', 'layout-mismatch', 'meta-mismatch', 'api-error', 'harness-crash', 'table-status', 'table-bytes-vs-independent-reader'},
 }
 DIRECT['C19'] = {'read-vs-spec', 'read-vs-spec-after-repair', 'scan-vs-spec', 'iter-vs-spec', 'api-error', 'harness-crash', 'table-status', 'dir-vs-live', 'layout-mismatch'}
-DIRECT['C20'] = {'backup-contents', 'backup-not-independent', 'copy-contents', 'wrongcmp-not-refused', 'wrongcmp-modified-files',
+DIRECT['C20'] = {'backup-contents', 'backup-not-independent', 'backup-onto-source-accepted', 'copy-contents', 'wrongcmp-not-refused', 'wrongcmp-modified-files',
                  'lock-not-exclusive', 'lock-not-released', 'lock-dropped-by-failed-open',
                  'read-vs-spec', 'scan-vs-spec', 'api-error', 'harness-crash'}     # the source must stay unchanged and usable
 DIRECT['C05'] = {'api-error', 'read-vs-spec', 'scan-vs-spec', 'harness-crash', 'layout-mismatch'}
